@@ -114,7 +114,7 @@ def run(chk):
     for it in range(12 if thorough else 4):
         zeta = rng.choice([1.0, 2.0, 3.0])
         wc = rng.choice([1.0, 3.0])
-        ctype = rng.choice(["hard", "exponential", "gaussian"])
+        ctype = ["hard", "exponential", "gaussian"][it % 3]      # every cut-off type in every run (hard: nothing beyond it)
         alpha = rng.choice([0.05, 0.4])
         Tlow = rng.choice([1e-3, 4e-3])
         kind = rng.choice(["power", "custom-sd"])
@@ -176,6 +176,10 @@ def run(chk):
         zeta = rng.choice([0.5, 1.0, 2.0, 3.0, 4.0])
         wc = rng.choice([1.0, 3.0])
         ctype = rng.choice(["hard", "exponential", "gaussian"])
+        if forced:
+            ctype = ["hard", "exponential", "gaussian"][it % 3]
+        if ctype == "hard" and T == 0.05:
+            wc = 3.0        # a hard cut-off far above the thermal scale (cut-off > 36 T: the guarded branch reaches the cut-off)
         alpha = rng.choice([0.05, 0.4])
         kind = rng.choice(["power", "power", "custom-sd", "custom-corr"])
         pw = oqupy.PowerLawSD(alpha=alpha, zeta=zeta, cutoff=wc, cutoff_type=ctype, temperature=T)
